@@ -70,7 +70,6 @@ PROPS["C07"] = {
 
 # properties registered but not yet claimed (check still being built / not quiet yet): id -> reason
 UNCLAIMED = {
-    "C08": "check under construction (bound/one-shot model and theorems in progress) - not claimed yet",
 }
 NOT_YET = dict(UNCLAIMED)
 for _k in ("C01", "C04", "C05"):
